@@ -127,6 +127,16 @@ CATALOGUE = {
     "ngramword-multi": (lambda: RT() | LOW() | analysis.MultiFilter(index=analysis.NgramFilter(2, 4),
                                                                    query=analysis.NgramFilter(2, 3)), "lower", False),
     "stemming-ignore": (lambda: analysis.StemmingAnalyzer(ignore=frozenset(["running", "geese"])), "none", True),
+    # the same with bounded caches far smaller than the vocabulary of the generated texts (the cache
+    # overflows many times within one run), and with the unbounded cache
+    "stemming-ignore-cache4": (lambda: analysis.StemmingAnalyzer(ignore=frozenset(["running", "geese", "rendering"]),
+                                                                 cachesize=4), "none", True),
+    "stemming-ignore-cache32": (lambda: analysis.StemmingAnalyzer(ignore=frozenset(["running", "database"]),
+                                                                  cachesize=32), "none", True),
+    "stemming-ignore-unbounded": (lambda: analysis.StemmingAnalyzer(ignore=frozenset(["geese", "rendering"]),
+                                                                    cachesize=-1), "none", True),
+    "stemfilter-de-ignore-cache8": (lambda: RT() | LOW() | analysis.StemFilter(lang="de", ignore=["running", "straße"],
+                                                                              cachesize=8), "none", True),
 }
 # analyzers that only take part in the model correspondence (a MultiFilter whose query branch is
 # not a restriction of its index branch: query-time tokens need not find the document)
@@ -304,6 +314,12 @@ MODELLED = {
     "stemming": ("(regex default)", ["lowercase", lambda rs: _stop_sexp(rs), _stem("stemming")]),
     "stemming-nocache": ("(regex default)", ["lowercase", lambda rs: _stop_sexp(rs), _stem("stemming-nocache")]),
     "stemming-ignore": ("(regex default)", ["lowercase", lambda rs: _stop_sexp(rs), _stem("stemming-ignore")]),
+    "stemming-ignore-cache4": ("(regex default)", ["lowercase", lambda rs: _stop_sexp(rs), _stem("stemming-ignore-cache4")]),
+    "stemming-ignore-cache32": ("(regex default)", ["lowercase", lambda rs: _stop_sexp(rs),
+                                                    _stem("stemming-ignore-cache32")]),
+    "stemming-ignore-unbounded": ("(regex default)", ["lowercase", lambda rs: _stop_sexp(rs),
+                                                      _stem("stemming-ignore-unbounded")]),
+    "stemfilter-de-ignore-cache8": ("(regex default)", ["lowercase", _stem("stemfilter-de-ignore-cache8")]),
     "ngramword-multi": ("(regex default)", ["lowercase", "(multi (ngram 2 4 all) (ngram 2 3 all))"]),
     "multi-stop": ("(regex default)", ["lowercase", lambda rs: "(multi pass %s)" % _stop_sexp(rs), "reverse"]),
     "multi-default": ("(regex default)", ["(multi lowercase pass)"]),
